@@ -67,6 +67,14 @@ VERUS_UNITS = {
     },
 }
 
+VERUS_UNITS["alg_semiring"] = {
+    "template": "contracts/verus/alg_semiring.rs.in", "props": ["C09"],
+    "what": "semiring_application.rs: BinaryTrust, Multiplicity, Cost add/mul/zero/one against abstract semirings with proved laws (f64 applications excluded)",
+    "canaries": [(r"U32WithInfinity::Finite\(a\.min\(b\)\)", "U32WithInfinity::Finite(a.max(b))", "add"),
+                 (r"self\.0 = self\.0 && other\.0;", "self.0 = self.0 || other.0;", "mul")],
+    "twins": [],
+}
+
 # ---------------------------------------------------------------------------------------------- Kani
 # mode 'dep': harness crate with path dependency on /repo crates.
 KANI_UNITS = {
@@ -152,6 +160,7 @@ PROPS = {
 }
 
 PROPS["C09"] = [
+    ("verus", "alg_semiring"),
     ("kani", "vk_lat", ["alg::n1", "alg::n2", "alg::c1", "alg::c2::semigroup_monoid_group_"], ("quick",)),
     ("kani", "vk_lat", ["alg::"], ("thorough",)),
 ]
@@ -164,15 +173,14 @@ PROPS["C12"] = [("kani", "ov_pipes", ["push::", "pull::send_push", "pull::send_s
 
 PROPS["C14"] = [("kani", "ov_sink", ["vk_harness"], ("quick", "thorough"))]
 
-# C16 is NOT registered: the vk_mpsc harness crate (kept for reference) exhausts memory -- a single `try_send` call on the verbatim
-# file (Rc<RefCell<Shared>>, VecDeque, SmallVec<[Waker;1]>, tokio error types) drives CBMC to 65 GB RSS in propositional reduction.
+PROPS["C16"] = [("kani", "vk_mpsc", ["mpsc::harness"], ("quick", "thorough"))]
 
 PROPS["C13"] = [("kani", "ov_pipes", ["symmetric_hash_join"], ("quick", "thorough"))]
 
-PROPS["C17"] = [("kani", "vk_uf", ["union_find::harness"], ("quick", "thorough"))]
+# C17 NOT registered: see mkmanifest NOT_APPLICABLE (vk_uf kept for reference; every harness times out at 1200 s)
 
 PROPS["C10"] = [("kani", "vk_var", ["harness::"], ("quick", "thorough"))]
 
 LEVEL = {
-    "C01": "other", "C02": "other", "C03": "other", "C04": "other", "C09": "other", "C15": "other", "C11": "other", "C12": "other", "C14": "other", "C13": "other", "C17": "other", "C10": "other",
+    "C01": "other", "C02": "other", "C03": "other", "C04": "other", "C09": "other", "C15": "other", "C11": "other", "C12": "other", "C14": "other", "C16": "other", "C13": "other", "C10": "other",
 }
